@@ -156,7 +156,7 @@ class LockWorld:
             if ev[0] == 'acq':
                 c = self.new_conn(ev[1])
                 before[id(c['p'])] = False
-                self.send(c, Func.acquire, self.NAMES[self.names](ev[1]))
+                self.send(c, Func.acquire, self.NAMES[self.names](ev[1]))   # NAMES may be replaced per instance
             elif ev[0] == 'rel':
                 c = self.conns[ev[1]]
                 c['released'] = True
@@ -339,6 +339,65 @@ def job(args):
         w.close()
 
 
+def long_run(args):
+    '''one long history (not an exploration): 150 rounds of a holder and a
+    waiter, every client under a label never used before, 300 labels in all.
+    What the lock server remembers about past clients must never get in the way:
+    in every round the waiter is granted within one poll period of the release'''
+    tier, seed = args
+    ctx = common.Ctx('C13', tier, seed, LEVEL)
+    w = LockWorld(2, 10 ** 6, 'distinct')
+    counter = [0]
+
+    def fresh(_i):
+        counter[0] += 1
+        return f'job-{counter[0]:04d}: load'
+
+    w.NAMES = dict(LockWorld.NAMES, distinct=fresh)
+    try:
+        w.reset()
+        for rnd in range(150):
+            rep = {'tier': 'long-run', 'round': rnd}
+            steps = [('acq', 0), ('adv',), ('acq', 1), ('adv',), ('rel', 0)]
+            bad = None
+            for ev in steps:
+                if ev[0] == 'rel' and not w.conns[0]['told']:
+                    bad = f'round {rnd}: the holder was never told it holds the lock'
+                    break
+                _before, news = w.apply(ev)
+                for c, m in news:
+                    if m == w.comms.Mutex.unlock:
+                        c['told'] = True
+                if w.raised is not None:
+                    bad = f'round {rnd}, event {ev}: the server raised {w.raised!r}'
+                    break
+            if bad is None:
+                for _ in range(4):
+                    if w.conns[1]['told']:
+                        break
+                    _before, news = w.apply(('adv',))
+                    for c, m in news:
+                        if m == w.comms.Mutex.unlock:
+                            c['told'] = True
+                    if w.raised is not None:
+                        bad = f'round {rnd}: the server raised {w.raised!r} while the waiter polled'
+                        break
+                else:
+                    bad = bad or f'round {rnd} (label #{counter[0]}): the lock is free but the waiter is not granted'
+            ctx.count('long_run_rounds')
+            if bad:
+                ctx.violation('C13/long-run/waiter-not-served-after-many-clients', bad, rep)
+                break
+            w.apply(('rel', 1))
+            w.apply(('drop', 0))
+            w.apply(('drop', 1))
+            w.apply(('adv',))
+            w.apply(('adv',))
+    finally:
+        w.close()
+    return ctx.export()
+
+
 def client_ops(args):
     '''the real lock client (shelve.model.Interface load / update, which wrap
     their table traffic in comms.acquire / comms.release) against the real
@@ -401,6 +460,8 @@ def client_ops(args):
 
 def run(ctx):
     for r in common.pmap(client_ops, [(ctx.tier, ctx.seed)]):
+        ctx.merge(r)
+    for r in common.pmap(long_run, [(ctx.tier, ctx.seed)]):
         ctx.merge(r)
     # (clients, state cap, connections per client in one history)
     jobs = [(ctx.tier, ctx.seed, 2, None, 2)]
